@@ -43,10 +43,11 @@ type Descriptor struct {
 	SoftSync     []string `json:"soft_sync"`     // sync.Mutex/RWMutex/Once uses handled by the lock rewrite
 	GoStmts      int      `json:"go_stmts"`
 	ChanOps      int      `json:"chan_ops"`
-	PkgVars      []string `json:"pkg_vars"` // package-level variables that are not error sentinels
-	OpOnly       bool     `json:"op_only"`  // scheduling must stay operation-granular
+	PkgVars      []string `json:"pkg_vars"`      // package-level variables that are not error sentinels
+	OpOnly       bool     `json:"op_only"`       // scheduling must stay operation-granular
 	LockRewrites int      `json:"lock_rewrites"` // x.Lock()/x.RLock() statements rewritten to TryLock loops
-	OnceWraps    int      `json:"once_wraps"`    // x.Do(f) statements wrapped in a no-preemption window
+	OnceWraps    int      `json:"once_wraps"`    // x.Do(f) statements put behind a cooperative gate
+	WaitHints    int      `json:"wait_hints"`    // runtime.Gosched() statements preceded by a "waiting" hint
 	Rewrite      bool     `json:"rewrite"`       // lock rewriting was enabled for this copy
 	SiteTable    []Site   `json:"-"`
 }
@@ -97,12 +98,16 @@ func RunOpts(srcDir, dstDir string, rewrite bool) (*Descriptor, error) {
 			return nil
 		}
 		switch {
-		case rel == "go.mod" || rel == "go.sum":
-			return copyFile(p, filepath.Join(dstDir, rel))
 		case strings.HasSuffix(rel, "_test.go"):
 			return nil
 		case strings.HasSuffix(rel, ".go"):
 			goFiles = append(goFiles, rel)
+		default:
+			// go.mod, go.sum and whatever else the build may need (//go:embed data, assembly, C sources);
+			// very large files are left behind
+			if info.Mode().IsRegular() && info.Size() <= 8<<20 {
+				return copyFile(p, filepath.Join(dstDir, rel))
+			}
 		}
 		return nil
 	})
@@ -245,9 +250,19 @@ func RunOpts(srcDir, dstDir string, rewrite bool) (*Descriptor, error) {
 							ins = append(ins, insertion{tf.Offset(x.End()), " { zzSimhook.Blocked() }"})
 							d.LockRewrites++
 						case sel.Sel.Name == "Do" && len(call.Args) == 1:
-							ins = append(ins, insertion{tf.Offset(x.Pos()), "zzSimhook.NoPreemptBegin(); "})
-							ins = append(ins, insertion{tf.Offset(x.End()), "; zzSimhook.NoPreemptEnd()"})
+							// sync.Once holds a mutex while f runs.  The statement is put behind a cooperative gate (one per
+							// call site): a task that arrives while another task is inside yields to the scheduler instead of
+							// blocking for real on the Once's mutex with the token in its hand; f itself stays preemptible.
+							gate := len(d.SiteTable) + 1000000 + d.OnceWraps
+							ins = append(ins, insertion{tf.Offset(x.Pos()), fmt.Sprintf("func() { for !zzSimhook.Enter(%d) { zzSimhook.Blocked() }; defer zzSimhook.Leave(%d); ", gate, gate)})
+							ins = append(ins, insertion{tf.Offset(x.End()), " }()"})
 							d.OnceWraps++
+						case sel.Sel.Name == "Gosched" && len(call.Args) == 0:
+							if id, ok := sel.X.(*ast.Ident); ok && id.Name == "runtime" {
+								// a hand-written wait loop: tell the scheduler that this task is waiting for another one
+								ins = append(ins, insertion{tf.Offset(x.Pos()), "zzSimhook.Waiting(); "})
+								d.WaitHints++
+							}
 						}
 					}
 				}
@@ -325,9 +340,12 @@ func RunOpts(srcDir, dstDir string, rewrite bool) (*Descriptor, error) {
 	hb.WriteString("func Yield(site int) {\n\tif Hook != nil {\n\t\tHook(site)\n\t}\n}\n\n")
 	hb.WriteString("// Blocked is called from a rewritten Lock loop: the lock is held by a descheduled task.\n")
 	hb.WriteString("func Blocked() {\n\tif Hook != nil {\n\t\tHook(-2)\n\t}\n}\n\n")
-	hb.WriteString("// NoPreempt > 0 while a sync.Once-style callback runs; the scheduler must not switch then.\nvar NoPreempt int\n\n")
-	hb.WriteString("// NoPreemptBegin opens a no-preemption window.\n//\n//go:norace\nfunc NoPreemptBegin() { NoPreempt++ }\n\n")
-	hb.WriteString("// NoPreemptEnd closes it.\n//\n//go:norace\nfunc NoPreemptEnd() {\n\tif NoPreempt > 0 {\n\t\tNoPreempt--\n\t}\n}\n\n")
+	hb.WriteString("// Waiting is called before a runtime.Gosched() of the instrumented module (a hand-written wait loop).\n")
+	hb.WriteString("func Waiting() {\n\tif Hook != nil {\n\t\tHook(-3)\n\t}\n}\n\n")
+	hb.WriteString("// gates serialise the x.Do(f) statements of the instrumented module cooperatively (see Enter).\nvar gates [64]struct {\n\tid   int\n\tbusy bool\n}\n\n")
+	hb.WriteString("// Enter tries to pass the gate of a wrapped x.Do(f) statement.  Exactly one simulated task runs at a time,\n// so plain variables are enough; outside a simulation (Hook == nil) the gate is always open.\n//\n//go:norace\nfunc Enter(id int) bool {\n\tif Hook == nil || !Active {\n\t\treturn true\n\t}\n\tfree := -1\n\tfor i := range gates {\n\t\tif gates[i].busy && gates[i].id == id {\n\t\t\treturn false\n\t\t}\n\t\tif !gates[i].busy && free < 0 {\n\t\t\tfree = i\n\t\t}\n\t}\n\tif free >= 0 {\n\t\tgates[free].id, gates[free].busy = id, true\n\t}\n\treturn true\n}\n\n")
+	hb.WriteString("// Leave reopens the gate.\n//\n//go:norace\nfunc Leave(id int) {\n\tfor i := range gates {\n\t\tif gates[i].busy && gates[i].id == id {\n\t\t\tgates[i].busy = false\n\t\t\treturn\n\t\t}\n\t}\n}\n\n")
+	hb.WriteString("// Active is set by the harness around the concurrent phase of a run.\nvar Active bool\n\n// NoPreempt is kept for compatibility (always 0).\nvar NoPreempt int\n\n")
 	hb.WriteString("// SiteInfo describes one yield site.\ntype SiteInfo struct {\n\tFile string\n\tLine int\n\tFunc string\n\tFuncFirst bool\n\tGlobal bool\n}\n\n")
 	fmt.Fprintf(&hb, "// OpOnly is set when the module contains blocking synchronisation of its own.\nconst OpOnly = %v\n\n", d.OpOnly)
 	hb.WriteString("// Sites is the table of generated yield sites.\nvar Sites = [...]SiteInfo{\n")
